@@ -845,6 +845,12 @@ pub fn spec_for(prop: &str, tier: Tier) -> Option<CheckSpec> {
             v.extend(reach_scenarios(tier, &["C02"], false, true));
             // capacity after histories mixing take / retain with resize and close
             v.extend(c09_scenarios_for(tier, &["C02"]).into_iter().filter(|s| s.name.contains("retain-take-histories")));
+            // gets that really time out (virtual clock): every ordering of "deadline
+            // passes", "slot freed", "create / recycle finishes", then the capacity probe
+            v.extend(c10_scenarios(tier).into_iter().filter(|s| s.name.starts_with("managed/tokio/")).map(|mut s| {
+                s.name = format!("timed-out-gets/{}", &s.name["managed/tokio/".len()..]);
+                s
+            }));
             v
         }
         "C03" => {
